@@ -46,6 +46,12 @@ type Result struct {
 	BadStep int      `json:"bad_step,omitempty"`
 	Execs   int      `json:"execs"`
 	Extra   []string `json:"extra,omitempty"`
+	Also    []SigDet `json:"also,omitempty"` // further mismatches of the same step (other queues): each belongs to its own property
+}
+
+type SigDet struct {
+	Sig    string `json:"sig"`
+	Detail string `json:"detail"`
 }
 
 const initialDelay = 20 * time.Millisecond
@@ -105,7 +111,10 @@ func realQueues(f *opfix.Fixture) map[string][]specTask {
 }
 
 // classify a queue mismatch by property
-func classify(op string, want, got map[string][]specTask) (string, string) {
+// actq is the queue whose worker made the step (Pick, Finish); "" for environment steps.
+func classifyAll(op, actq string, want, got map[string][]specTask) []SigDet {
+	var out []SigDet
+	add := func(sig, d string) { out = append(out, SigDet{sig, d}) }
 	qs := []string{}
 	for q := range want {
 		qs = append(qs, q)
@@ -127,27 +136,53 @@ func classify(op string, want, got map[string][]specTask) (string, string) {
 				}
 			}
 			if onlyAf {
-				return "C04/combined-allow-failure", d
+				add("C04/combined-allow-failure", d)
+				continue
+			}
+		}
+		if actq != "" && q != actq {
+			switch op {
+			case "Pick":
+				// a pick works on its own queue only
+				add("C03/other-queue-changed", d+fmt.Sprintf("; the step was a pick of queue %s", actq))
+				continue
+			case "Finish":
+				// the only effect of a finished run on another queue is the release of held-back events at the unlock
+				add("C01/released-events", d+fmt.Sprintf("; the step was the end of a run of queue %s", actq))
+				continue
 			}
 		}
 		switch op {
 		case "Pick":
-			return "C07/combine", d // combining changed the queue differently
+			add("C07/combine", d) // combining changed the queue differently
+			continue
 		case "Finish":
 			// allowFailure / retry / removal / head tasks
 			if len(g) < len(w) {
-				return "C04/task-dropped", d
+				add("C04/task-dropped", d)
+				continue
 			}
-			return "C04/result-application", d
+			add("C04/result-application", d)
+			continue
 		case "KubeEvent", "Tick":
-			return "C03/placement", d
+			add("C03/placement", d)
+			continue
 		}
-		return "DIV/queues/" + op, d
+		add("DIV/queues/"+op, d)
+		continue
 	}
 	for q := range got {
 		if _, ok := want[q]; !ok && len(got[q]) > 0 {
-			return "C03/placement", fmt.Sprintf("unexpected queue %s with %v", q, brief(got[q]))
+			add("C03/placement", fmt.Sprintf("unexpected queue %s with %v", q, brief(got[q])))
+			continue
 		}
+	}
+	return out
+}
+
+func classify(op, actq string, want, got map[string][]specTask) (string, string) {
+	if all := classifyAll(op, actq, want, got); len(all) > 0 {
+		return all[0].Sig, all[0].Detail
 	}
 	return "", ""
 }
@@ -288,7 +323,7 @@ func replayCase(n int, c Case, hookbin string) Result {
 		return bad(0, "DIV/bootstrap", err.Error())
 	}
 	// the bootstrap content of main is state 1 of the behaviour
-	if sig, d := classify("Init", specQueues(c.Steps[0]), realQueues(f)); sig != "" {
+	if sig, d := classify("Init", "", specQueues(c.Steps[0]), realQueues(f)); sig != "" {
 		return bad(0, "C06/bootstrap-order", d)
 	}
 	execID := map[string]string{}
@@ -358,6 +393,9 @@ func replayCase(n int, c Case, hookbin string) Result {
 					if len(got) != len(want) && sig == "C07/contexts" && t.Kind == "Synchronization" {
 						sig = "C06/sync-combination"
 					}
+					// the same pick may also have changed queues differently (e.g. taken tasks of another queue)
+					settle(f, c, st, 500*time.Millisecond)
+					res.Also = classifyAll(op, q, specQueues(st), realQueues(f))
 					return bad(i, sig, fmt.Sprintf("hook %s received contexts %v, specification %v", e.Hook, got, want))
 				}
 			} else {
@@ -487,8 +525,13 @@ func replayCase(n int, c Case, hookbin string) Result {
 			return bad(i, "DIV/unknown-action", op)
 		}
 		settle(f, c, st, 3*time.Second)
-		if sig, d := classify(op, specQueues(st), realQueues(f)); sig != "" {
-			return bad(i, sig, d+fmt.Sprintf(" (after %v)", a))
+		actq := ""
+		if (op == "Pick" || op == "Finish") && len(a) > 1 {
+			actq = fmt.Sprint(a[1])
+		}
+		if all := classifyAll(op, actq, specQueues(st), realQueues(f)); len(all) > 0 {
+			res.Also = all[1:]
+			return bad(i, all[0].Sig, all[0].Detail+fmt.Sprintf(" (after %v)", a))
 		}
 		if bufm, ok := st["buffered"].(map[string]interface{}); ok {
 			ms := st["mstate"].(map[string]interface{})
